@@ -732,7 +732,7 @@ def rule_neuf_annotate(ctx, rep):
     path = interp_method('fr', 'basic_annotate')
     n = 0
     for toks, marks in NEUF_CASES:
-        ent = 'fr|%s' % '|'.join(t.replace(' ', '_') for t in toks)
+        ent = 'fr|%s%s' % ('multi|' if len(marks) > 1 else '', '|'.join(t.replace(' ', '_') for t in toks))
         try:
             tl = [Tok(t) for t in toks]
             ev.call_fn(path, [ev.self_value, tl])
